@@ -7,8 +7,8 @@ def plan(tier, seed):
     ints = [H("c04::k1_%s_4" % t, "integer parse+parse_partial: Kani's automatic panic/overflow/pointer checks + index<=len", "arbitrary bytes len<=4") for t in INT_TYPES]
     fl = [H("pf::p1_%s_%s_4" % (f, m), "float %s parser, numeric back end stubbed: no panic, count<=len, error index<=len" % m, "arbitrary bytes len<=4") for f in ("f32", "f64") for m in ("partial", "complete")]
     if tier == "quick":
-        groups.append(KGroup("D", ints, timeout=900, jobs=10, mem_gb=8, label="integers default"))
-        groups.append(KGroup("D", fl, timeout=900, jobs=6, mem_gb=8, stubbing=True, label="floats default (stubbed numerics)"))
+        groups.append(KGroup("D", ints, timeout=900, jobs=10, mem_gb=14, label="integers default"))
+        groups.append(KGroup("D", fl, timeout=900, jobs=6, mem_gb=14, stubbing=True, label="floats default (stubbed numerics)"))
         kernels = lemire_rows("f64", tier, seed, "lemire_nopanic", 4) + lemire_rows("f32", tier, seed, "lemire_nopanic", 2)
     else:
         ints += [H("c04::k1_%s_6" % t, "integers", "arbitrary bytes len<=6") for t in INT_TYPES]
